@@ -90,9 +90,9 @@ def upLoop2 : Nat → Rat → Rat → Rat → Rat × Rat
 
 /-- `make_valid_orientation_interval`. -/
 def makeValidInterval (τ s e : Rat) : Rat × Rat :=
-  let f := fuelFor τ s + fuelFor τ e
+  let f := (fuelFor τ s + fuelFor τ e) + (fuelFor τ s + fuelFor τ e)
   let p := downLoop2 f τ s e
-  upLoop2 (f + f) τ p.1 p.2
+  upLoop2 f τ p.1 p.2
 
 /-- `is_valid_orientation`: within `[-τ, τ]`. -/
 def validOrientation (τ x : Rat) : Bool := -τ ≤ x && x ≤ τ
